@@ -290,70 +290,106 @@ example : bucket 119 60 = 60 ∧ bucket 120 60 = 120 ∧ bucket 59 60 = 0 := by 
 /-! ## 6. binary operators between two result vectors match label sets
 
 Model: SigModel/Model/PromqlBin.lean (HelperQueryArithmeticAndLogical, vector–vector, no on()/ignoring(), with the
-pending repair c09-15), tied by the suite `promqlbin`.  A group id is the metric name followed by the label part; the
+repair c09-15 and the pending repairs c09-19 / c09-20), tied by the suite `promqlbin`.  A group id is the metric name followed by the label part; the
 code cuts the id at len(MetricName) and compares the label parts in a canonical form (`canonLabel`: items sorted, no
 empty items), so that neither the order of the labels nor a comma behind the last one matters. -/
 
 section binop
 open SigModel.PromqlBin
 
-/-- C09.6a the cut returns the label part for EVERY metric name and EVERY label part — any bytes, also
-`{ } , : = "` inside label values or the metric name (the seeded alternative, splitting the id on '{', does not). -/
-theorem cutLabel_is_label_part (name part : Str) : cutLabel name (name ++ part) = part :=
-  Lemmas.C09bin.cutLabel_append name part
+/-- C09.6a the cut (labelPartOfGroupID, repair c09-25) returns the label part for EVERY metric name and EVERY label
+part that is empty or begins with '{' — any bytes behind it, also `{ } , : = "` inside label values, and a metric name
+that contains '{' (the seeded alternative, splitting the id on '{', does not). -/
+theorem cutLabel_is_label_part (name part : Str) (hp : partOK part) : cutLabel? name (name ++ part) = some part :=
+  Lemmas.C09bin.cutLabel?_append name part hp
+
+/-- … and an id that starts with ANOTHER metric name — the ids of a vector that comes from `a or b` — is cut at its
+first '{': `http_requests{dc:x,` in a vector filed under `http` gives `{dc:x,`; slicing at the length of the vector's
+name (before c09-25, which name that was depended on Go's map order) gave `_requests{dc:x,`.
+("h" 104 "t" 116 "p" 112 "_" 95 "r" 114 "{" 123 "d" 100 "c" 99 ":" 58 "x" 120 "," 44) -/
+theorem cutLabel_other_name_witness :
+    cutLabel? [104, 116, 116, 112] [104, 116, 116, 112, 95, 114, 123, 100, 99, 58, 120, 44] = some [123, 100, 99, 58, 120, 44] ∧
+    cutLabel [104, 116, 116, 112] [104, 116, 116, 112, 95, 114, 123, 100, 99, 58, 120, 44] = [95, 114, 123, 100, 99, 58, 120, 44] := by
+  decide
 
 /-- C09.6b arithmetic, comparison and `and` (every operator but or / unless), for ALL left vectors and all right
-vectors whose ids start with the right metric name (and are not empty): the answer holds exactly the left series
-whose label part has the same canonical form as the label part of some right series — whatever bytes the label parts
-contain and whatever the two metric names are. -/
+vectors whose ids are the right metric name followed by a label part (and are not empty): the answer holds exactly
+the left series whose label part has the same canonical form as the label part of some right series — whatever bytes
+the label parts contain and whatever the two metric names are. -/
 theorem binop_matches_label_sets (op : Op) (b : Bool) (l r : Res) (hop : op ≠ .or ∧ op ≠ .unless)
-    (hr : wellFormed r) (hne : ([] : Str) ∉ vecIds r) (part : Str) :
+    (hr : wellFormed r) (hne : ([] : Str) ∉ vecIds r) (part : Str) (hp : partOK part) :
     l.name ++ part ∈ outIds (binop op b l r) ↔
-      l.name ++ part ∈ vecIds l ∧ ∃ q, r.name ++ q ∈ vecIds r ∧ canonLabel q = canonLabel part := by
-  rw [Lemmas.C09bin.mem_binop_match op b l r hop hne, Lemmas.C09bin.cutLabel_append]
+      l.name ++ part ∈ vecIds l ∧ ∃ q, r.name ++ q ∈ vecIds r ∧ partOK q ∧ canonLabel q = canonLabel part := by
+  rw [Lemmas.C09bin.mem_binop_match op b l r hop hne, Lemmas.C09bin.cutLabel?_append _ _ hp]
   constructor
-  · rintro ⟨h1, _, rid, hrid, _, hc⟩
-    obtain ⟨q, rfl⟩ := hr rid hrid
-    rw [Lemmas.C09bin.cutLabel_append] at hc
-    exact ⟨h1, q, hrid, hc⟩
-  · rintro ⟨h1, q, hq, hc⟩
-    refine ⟨h1, by simp, r.name ++ q, hq, by simp, ?_⟩
-    rw [Lemmas.C09bin.cutLabel_append]
-    exact hc
+  · rintro ⟨h1, p, hpe, rid, hrid, hc⟩
+    obtain ⟨q, rfl, hq⟩ := hr rid hrid
+    rw [Lemmas.C09bin.cutLabel?_append _ _ hq] at hc
+    have : p = part := (Option.some.inj hpe).symm
+    subst this
+    exact ⟨h1, q, hrid, hq, by simpa using hc⟩
+  · rintro ⟨h1, q, hq, hqok, hc⟩
+    refine ⟨h1, part, rfl, r.name ++ q, hq, ?_⟩
+    rw [Lemmas.C09bin.cutLabel?_append _ _ hqok]
+    simp [hc]
 
 /-- … and nothing else is in the answer: every answer id is a left id. -/
 theorem binop_ids_are_left_ids (op : Op) (b : Bool) (l r : Res) (hop : op ≠ .or ∧ op ≠ .unless)
     (hne : ([] : Str) ∉ vecIds r) (id : Str) (h : id ∈ outIds (binop op b l r)) : id ∈ vecIds l :=
   ((Lemmas.C09bin.mem_binop_match op b l r hop hne id).1 h).1
 
-/-- C09.6c `unless` keeps exactly the left series whose label set does NOT occur on the right. -/
-theorem unless_matches_label_sets (b : Bool) (l r : Res) (hr : wellFormed r) (part : Str) :
-    l.name ++ part ∈ outIds (binop .unless b l r) ↔
-      l.name ++ part ∈ vecIds l ∧ ¬ ∃ q, r.name ++ q ∈ vecIds r ∧ canonLabel q = canonLabel part := by
-  rw [Lemmas.C09bin.mem_binop_unless, Lemmas.C09bin.labelSetOf_append, Lemmas.C09bin.mem_rightLabelSets r hr]
+/-- C09.6c PER TIMESTAMP (repair c09-19): a sample of arithmetic / comparison / `and` is written only at a timestamp
+that BOTH the left series and its partner series have — a missing right sample is never read as a value. -/
+theorem binop_sample_needs_both (op : Op) (b : Bool) (pl : Pts) (rp : Option Pts) (hop : op ≠ .or ∧ op ≠ .unless)
+    (t : Nat) (v : Val) (h : (t, v) ∈ leftPts op b pl rp) :
+    (∃ x, (t, x) ∈ pl) ∧ ∃ q, rp = some q ∧ (ptAt? q t).isSome :=
+  Lemmas.C09bin.leftPts_needs_both op b pl rp hop t v h
 
-/-- C09.6d `a and b` and `a unless b` PARTITION the left vector: every left series is in exactly one of them
-(both vectors well-formed, no empty right id; no assumption on the bytes of names and label parts). -/
-theorem and_unless_partition (b : Bool) (l r : Res) (hl : wellFormed l) (hr : wellFormed r)
-    (hne : ([] : Str) ∉ vecIds r) (id : Str) :
-    (id ∈ vecIds l ↔ (id ∈ outIds (binop .and b l r) ∨ id ∈ outIds (binop .unless b l r))) ∧
-    ¬ (id ∈ outIds (binop .and b l r) ∧ id ∈ outIds (binop .unless b l r)) := by
-  have hand := fun part => binop_matches_label_sets .and b l r (by decide) hr hne part
-  have hunl := fun part => unless_matches_label_sets b l r hr part
+/-- … before the repair the partner was read as 0 where it has no sample: a{} = 5 at t = 10, b{} only at t = 20: `a + b` used
+to hold 5 at 10, `a * b` used to hold 0 (known finding binop-one-sided-timestamp, repaired). -/
+theorem leftPtsOld_reads_zero_counterexample :
+    leftPtsOld .add false [(10, 5)] (some [(20, 1)]) = [(10, Val.num 5)] ∧
+    leftPtsOld .mul false [(10, 5)] (some [(20, 1)]) = [(10, Val.num 0)] ∧
+    leftPts .add false [(10, 5)] (some [(20, 1)]) = [] := by
+  decide +kernel
+
+/-- C09.6d `a and b` and `a unless b` PARTITION the SAMPLES of a left series that has a partner: `and` keeps the samples
+at the timestamps the partner has, `unless` those at the timestamps it does not have (all of them without a partner:
+`Lemmas.C09bin.leftPts_unless_none`); every left sample is in exactly one of the two. -/
+theorem and_unless_partition (b : Bool) (pl rp : Pts) (p : Nat × Int) (hp : p ∈ pl) :
+    ((p.1, Val.num (p.2 : Rat)) ∈ leftPts .and b pl (some rp) ∨ (p.1, Val.num (p.2 : Rat)) ∈ leftPts .unless b pl (some rp)) ∧
+    ¬ ((p.1, Val.num (p.2 : Rat)) ∈ leftPts .and b pl (some rp) ∧ (p.1, Val.num (p.2 : Rat)) ∈ leftPts .unless b pl (some rp)) := by
+  rw [Lemmas.C09bin.leftPts_and, Lemmas.C09bin.leftPts_unless_some]
+  simp only [List.mem_map, List.mem_filter]
   constructor
-  · constructor
-    · intro h
-      obtain ⟨p, rfl⟩ := hl id h
-      by_cases hp : ∃ q, r.name ++ q ∈ vecIds r ∧ canonLabel q = canonLabel p
-      · exact Or.inl ((hand p).2 ⟨h, hp⟩)
-      · exact Or.inr ((hunl p).2 ⟨h, hp⟩)
-    · rintro (h | h)
-      · exact binop_ids_are_left_ids .and b l r (by decide) hne id h
-      · exact ((Lemmas.C09bin.mem_binop_unless b l r id).1 h).1
-  · rintro ⟨h1, h2⟩
-    have hid := binop_ids_are_left_ids .and b l r (by decide) hne id h1
-    obtain ⟨p, rfl⟩ := hl id hid
-    exact ((hunl p).1 h2).2 ((hand p).1 h1).2
+  · cases h : ptAt? rp p.1 with
+    | none => exact Or.inr ⟨p, ⟨hp, by simp [h]⟩, rfl⟩
+    | some y => exact Or.inl ⟨p, ⟨hp, by simp [h]⟩, rfl⟩
+  · rintro ⟨⟨q, ⟨_, hq⟩, hqe⟩, ⟨q', ⟨_, hq'⟩, hqe'⟩⟩
+    have e1 : q.1 = p.1 := by simpa using congrArg Prod.fst hqe
+    have e2 : q'.1 = p.1 := by simpa using congrArg Prod.fst hqe'
+    rw [e1] at hq
+    rw [e2] at hq'
+    cases h : ptAt? rp p.1 <;> simp [h] at hq hq'
+
+/-- C09.6e the entries of `a unless b`: every left series with the samples `unless` keeps, minus the series that keep none
+(the id-level statement of before — "the left series whose label set does not occur on the right" — described the
+per-series decision of the unrepaired code). -/
+theorem unless_entries (b : Bool) (l r : Res) :
+    binop .unless b l r =
+      (l.series.map (fun e => (e.1, leftPts .unless b e.2 (lookupPts r.series (partnerId l.name (rKey r) e.1))))).filter
+        (fun e => !e.2.isEmpty) := by
+  rw [Lemmas.C09bin.binop_unless_eq]
+  congr 1
+  simp only [leftPass, beq_self_eq_true, Bool.or_true, if_true]
+  induction l.series with
+  | nil => rfl
+  | cons e t ih => simp [ih]
+
+/-- C09.6f x / 0 is ±Inf, 0 / 0 is NaN (repair c09-20; the sample used to be dropped). -/
+theorem div_by_zero_kept (b : Bool) (x : Int) :
+    setFinal .div b x 0 = some (if x = 0 then Val.nan else Val.inf (x < 0)) := by
+  simp [setFinal]
 
 /-- the canonical form does not see the order of the labels nor a comma behind the last one:
 `{k:v,dc:x,`  `{dc:x,k:v,`  `{dc:x,k:v`  ("k" = 107, "v" = 118, "d" = 100, "c" = 99, "x" = 120) … -/
